@@ -376,7 +376,7 @@ pub fn skeleton_fillers() -> Vec<Snippet> {
     ]
 }
 
-pub const N_SKELETONS: usize = 16;
+pub const N_SKELETONS: usize = 17;
 
 /// Build skeleton `k` with slots `s` (4 entries, indices into fillers).
 pub fn skeleton(k: usize, s: &[usize]) -> Program {
@@ -591,6 +591,25 @@ pub fn skeleton(k: usize, s: &[usize]) -> Program {
             b.extend(sl(2));
             b.extend(sl(3));
         }
+        16 => {
+            // words kept behind a CSR-held pointer decide two ecall numbers, one of them an exit
+            b.push(inst(Inst::Csr(CsrOp::Rs, T0, 64, ZERO)));
+            b.push(sw(ZERO, 8, T0));
+            b.push(sw(ZERO, 12, T0));
+            b.push(lw(A1, 8, T0));
+            b.extend(sl(0));
+            b.push(br(BOp::Bne, A0, ZERO, "L1"));
+            b.push(sw(T1, 12, T0));
+            b.push(addi(A7, A1, 10));
+            b.push(ecall());
+            b.extend(sl(1));
+            b.push(label("L1"));
+            b.push(lw(12, 12, T0));
+            b.push(addi(A7, 12, 1));
+            b.push(ecall());
+            b.extend(sl(2));
+            b.extend(sl(3));
+        }
         _ => {
             // frame around a call inside a loop
             b.push(addi(SP, SP, -8));
@@ -696,7 +715,7 @@ impl KernelSpace {
         let csr = SeqSpace {
             a: csr_a.len() as u64,
             min: 1,
-            max: b.seq_len + 1,
+            max: b.seq_len,
         };
         let xst_a = xstack_alphabet();
         let xst = SeqSpace {
